@@ -483,6 +483,8 @@ class FunctionVC:
         # parameters not named in the contract take their source defaults
         params = [p.arg for p in a.posonlyargs + a.args]
         nd = len(a.defaults)
+        if a.kwarg is not None and a.kwarg.arg not in I.env:
+            I.env[a.kwarg.arg] = VDict()
         for i, p in enumerate(params):
             if p not in I.env:
                 di = i - (len(params) - nd)
